@@ -43,7 +43,7 @@ def finite_choice(spec):
 def one(spec, batch, stats, lang=False, staged=False):
     b = GR.build(spec)
     try:
-        decl = GR.declared_from_spec(declared_grammar(list(b.classes.values()), b.start), spec)
+        decl = b.oracle()
         evs = []
         g0 = None
         if staged:
